@@ -124,7 +124,7 @@ class RealStore:
             if k == 'len':
                 return f'len:{len(self.ts)}'
             if k == 'iter':
-                return 'iter:' + ','.join(self.tag_of(t) for t in self.ts)
+                return 'iter:' + ','.join(self.iterate(op.get('mode')))
             if k == 'sync':
                 self.ts.sync()
                 return 'ok'
@@ -139,6 +139,38 @@ class RealStore:
             if isinstance(e, (KeyboardInterrupt, SystemExit)):
                 raise
             return 'err:' + err_kind(e)
+
+
+def _iterate(self, mode):
+    """Tags yielded by iterating the store. The property says iteration yields the trajectories in insertion order *at every
+    moment*, so every iteration is a walk of its own: `mode` overlaps two walks over the same store object in the ways Python
+    code does it (zip of the store with itself, a nested loop, a walk resumed after another complete walk) and reports one
+    walk's tags when all walks agree, and the disagreement otherwise."""
+    ts = self.ts
+    if mode == 'zip':
+        pairs = [(self.tag_of(a), self.tag_of(b)) for a, b in zip(ts, ts)]
+        return [a if a == b else f'INTERFERENCE({a}|{b})' for a, b in pairs]
+    if mode == 'nested':
+        outer, inners = [], []
+        for a in ts:
+            outer.append(self.tag_of(a))
+            inners.append([self.tag_of(b) for b in ts])
+        bad = [i for i, inner in enumerate(inners) if inner != outer]
+        return outer if not bad else outer + [f'INTERFERENCE(inner walk {bad[0]}: {"+".join(inners[bad[0]])})']
+    if mode == 'suspended':
+        it = iter(ts)
+        first = []
+        try:
+            first.append(self.tag_of(next(it)))
+        except StopIteration:
+            pass
+        mid = [self.tag_of(t) for t in ts]
+        walk = first + [self.tag_of(t) for t in it]
+        return walk if walk == mid else walk + [f'INTERFERENCE(complete walk in between: {"+".join(mid)})']
+    return [self.tag_of(t) for t in ts]
+
+
+RealStore.iterate = _iterate
 
 
 def fresh_dir() -> Path:
@@ -188,7 +220,7 @@ def model_ops(store: 'RealStore', ops: list[dict]) -> list[dict]:
         if o['op'] == 'add':
             out.append({'op': 'add', 'item': item_json(store, o)})
         else:
-            out.append({k: v for k, v in o.items()})
+            out.append({k: v for k, v in o.items() if k != 'mode'})   # overlapping walks are walks: one `iter` each in the model
     return out
 
 
@@ -298,7 +330,8 @@ def gen_history(rng, max_ops: int, indexable: bool | None = None, invalid_rate: 
         elif r < 0.76:
             ops.append({'op': 'len'})
         elif r < 0.81:
-            ops.append({'op': 'iter'})
+            m = rng.random()
+            ops.append({'op': 'iter'} if m < 0.55 else {'op': 'iter', 'mode': 'zip' if m < 0.75 else 'suspended' if m < 0.92 else 'nested'})
         elif r < 0.85:
             ops.append({'op': 'sync'})
         elif r < 0.93 and indexable:
@@ -387,6 +420,10 @@ def short_sequences(alphabet: str, k: int, indexable: bool, npts: int = 40, mem:
                 ops.append({'op': 'get', 'i': max(tag - 1, 0)})
             elif ch == 'I':
                 ops.append({'op': 'iter'})
+            elif ch == 'Z':
+                ops.append({'op': 'iter', 'mode': 'zip'})
+            elif ch == 'U':
+                ops.append({'op': 'iter', 'mode': 'suspended'})
             elif ch == 'E':
                 ops.append({'op': 'len'})
             elif ch == 'C':
